@@ -57,8 +57,8 @@ class FloatOps (F : Type) where
   floor : F → F
   ceil : F → F
   round : F → F
-  /-- `f64::from_str` of the decimal literal `m / 10^k` (correctly rounded). -/
-  ofDec : Nat → Nat → F
+  /-- `f64::from_str` of the decimal literal with value `m · 10^e` (correctly rounded). -/
+  ofDec : Nat → Int → F
   pi : F
   e : F
 
@@ -169,19 +169,51 @@ whose value is `n`: fails (panic) when empty or above `i64::MAX`. -/
 def intTok {F : Type} (empty : Bool) (n : Nat) : Tok F :=
   if empty then .bad else if n ≤ I64_MAX then .int (BitVec.ofNat 64 n) else .bad
 
+/-- `u64::from_str_radix(_, 16).unwrap() as i64` for a hex digit string whose value is `n`:
+fails (panic) when empty or above `u64::MAX`; the cast keeps the 64 bit pattern. -/
+def hexTok {F : Type} (empty : Bool) (n : Nat) : Tok F :=
+  if empty then .bad else if n < 2 ^ 64 then .int (BitVec.ofNat 64 n) else .bad
+
 variable {F : Type} [FloatOps F]
 
-/-- `f64::from_str(s).unwrap()` for `s` made of digits and dots: valid iff exactly one dot and
-at least one digit. -/
-def floatTok (s : List Char) : Tok F :=
+/-- mantissa `digits [. digits]` of a float literal as accepted by `f64::from_str`:
+(integer digits, fraction digits); at most one dot, at least one digit -/
+def mantissa (s : List Char) : Option (List Char × List Char) :=
   let ip := s.takeWhile isDigit
-  let rest := s.dropWhile isDigit
-  match rest with
+  match s.dropWhile isDigit with
+  | [] => if ip.isEmpty then none else some (ip, [])
   | '.' :: fp =>
-    if fp.all isDigit && (!ip.isEmpty || !fp.isEmpty) then
-      .float (FloatOps.ofDec (digitsToNat (ip ++ fp)) fp.length)
-    else .bad
-  | _ => .bad
+    if fp.all isDigit && (!ip.isEmpty || !fp.isEmpty) then some (ip, fp) else none
+  | _ => none
+
+/-- exponent of a float literal (the characters after `e`/`E`): optional sign, at least one digit -/
+def exponent (ex : List Char) : Option Int :=
+  match ex with
+  | '+' :: ds => if ds.isEmpty then none else some (digitsToNat ds : Int)
+  | '-' :: ds => if ds.isEmpty then none else some (-(digitsToNat ds : Int))
+  | ds => if ds.isEmpty then none else some (digitsToNat ds : Int)
+
+/-- `f64::from_str(s).unwrap()` for the scanned mantissa characters `s` (digits and dots) and
+the scanned exponent characters (after the `e`), if an exponent was scanned. -/
+def floatTok (s : List Char) (ex : Option (List Char)) : Tok F :=
+  match mantissa s, (match ex with | none => some (0 : Int) | some e => exponent e) with
+  | some (ip, fp), some E => .float (FloatOps.ofDec (digitsToNat (ip ++ fp)) (E - (fp.length : Int)))
+  | _, _ => .bad
+
+/-- `Lexer::eat_exponent`: `e`/`E`, an optional sign, digits.  Returns the characters after
+the `e` and the rest, `none` when the next character is not `e`/`E`. -/
+def eatExponent (n : Nat) (cs : List Char) : Option (List Char × List Char) :=
+  match nextChar cs with
+  | some (c, r) =>
+    if c = 'e' || c = 'E' then
+      let (sg, r1) : List Char × List Char :=
+        match nextChar r with
+        | some (c', r') => if c' = '+' || c' = '-' then ([c'], r') else ([], r)
+        | none => ([], r)
+      let (ds, r2) := eatWhile isDigit n r1
+      some (sg ++ ds, r2)
+    else none
+  | none => none
 
 /-- One token (`Lexer::peek` after whitespace skipping); `none` at the end of input. -/
 def lexOne (cs : List Char) : Option (Tok F × List Char) :=
@@ -232,19 +264,25 @@ def lexOne (cs : List Char) : Option (Tok F × List Char) :=
           | none => (.sym .gt, r)
       else if c = '.' then
         let (ds, r') := eatWhile isDigit n r
-        (floatTok ('.' :: ds), r')
+        match eatExponent n r' with
+        | some (ex, r'') => (floatTok ('.' :: ds) (some ex), r'')
+        | none => (floatTok ('.' :: ds) none, r')
       else if isAlpha c then
         let (s, r') := eatWhile isIdentCont n r
         (.ident (String.ofList (c :: s)), r')
       else if isDigit c then
-        match (if c = '0' then eatChar 'x' r else none) with
+        match (if c = '0' then
+            (match eatChar 'x' r with | some r1 => some r1 | none => eatChar 'X' r) else none) with
         | some r1 =>
           let (hs, r') := eatWhile isHexDigit n r1
-          (intTok hs.isEmpty (hexToNat hs), r')
+          (hexTok hs.isEmpty (hexToNat hs), r')
         | none =>
           let (s, r') := eatWhile isNumCont n r
-          if s.all isDigit then (intTok false (digitsToNat (c :: s)), r')
-          else (floatTok (c :: s), r')
+          match eatExponent n r' with
+          | some (ex, r'') => (floatTok (c :: s) (some ex), r'')
+          | none =>
+            if s.all isDigit then (intTok false (digitsToNat (c :: s)), r')
+            else (floatTok (c :: s) none, r')
       else (.bad, r)
 
 /-- `while self.eat_char(is_space) {}` -/
@@ -323,26 +361,17 @@ def ladderP (u : P F) : List Row → P F
   | [] => u
   | row :: rows => binLevel (ladderP u rows) row
 
-/-- The function-name table in `Parser::primary`. -/
+/-- The function-name table in `Parser::primary` (the arms of `match s.as_str()`). -/
+def funcTable : List (String × UnOpKind) :=
+  [ ("SGN", .sgn), ("NEG", .neg), ("SIN", .sin), ("COS", .cos), ("TAN", .tan), ("ASIN", .asin),
+    ("ACOS", .acos), ("ATAN", .atan), ("ABS", .abs), ("EXP", .exp), ("LN", .ln), ("LG", .lg),
+    ("SQRT", .sqrt), ("TRUNC", .trunc), ("FLOOR", .floor), ("CEIL", .ceil), ("ROUND", .round) ]
+
+/-- first matching arm; `none` is the `other => panic!(..)` arm -/
 def funcOf (s : String) : Option UnOpKind :=
-  if s = "SGN" then some .sgn
-  else if s = "NEG" then some .neg
-  else if s = "SIN" then some .sin
-  else if s = "COS" then some .cos
-  else if s = "TAN" then some .tan
-  else if s = "ASIN" then some .asin
-  else if s = "ACOS" then some .acos
-  else if s = "ATAN" then some .atan
-  else if s = "ABS" then some .abs
-  else if s = "EXP" then some .exp
-  else if s = "LN" then some .ln
-  else if s = "LG" then some .lg
-  else if s = "SQRT" then some .sqrt
-  else if s = "TRUNC" then some .trunc
-  else if s = "FLOOR" then some .floor
-  else if s = "CEIL" then some .ceil
-  else if s = "ROUND" then some .round
-  else none
+  match funcTable.find? (fun nk => nk.1 = s) with
+  | some nk => some nk.2
+  | none => none
 
 /-- `Parser::primary`, `pE` = `self.expr` -/
 def primaryBody (pE : P F) : P F := fun ts => do
@@ -391,8 +420,8 @@ def unopBody (pU pE : P F) : P F := fun ts => do
       let (e, ts3) ← pU ts2
       .ok (.unOp .neg e, ts3)
     else do
-      let (_, ts3) ← eat (F := F) .plus ts2
-      powBody pU pE ts3
+      let (b, ts3) ← eat (F := F) .plus ts2
+      if b then pU ts3 else powBody pU pE ts3
 
 /-- `Parser::expr`: `pU` is `self.unop` (reached through the ladder), `pE` the recursive `self.expr`. -/
 def exprBody (pU pE : P F) : P F := fun ts => do
@@ -416,10 +445,13 @@ def pExpr : Nat → P F
   | n + 1 => exprBody (unopBody (pUnop n) (pExpr n)) (pExpr n)
 end
 
-/-- `Parser { lexer }.expr()` on a token list (trailing tokens are ignored, as in the code). -/
+/-- `formula::parse` on a token list: `parser.expr()`, then `assert!(lexer.peek().is_none())`
+(a token left over — or a lexer panic at that position — is a panic). -/
 def parseToks (ts : List (Tok F)) : R (Expr F) := do
-  let (e, _) ← pExpr (ts.length + 1) ts
-  .ok e
+  let (e, rest) ← pExpr (ts.length + 1) ts
+  match rest with
+  | [] => .ok e
+  | _ => .panic
 
 /-- `formula::parse` -/
 def parseChars (cs : List Char) : R (Expr F) :=
